@@ -297,20 +297,32 @@ def run_units(rep, cases):
     U = {'mg': units.mg, 'g': units.g}
     for c in cases:
         cs = c['cs']
-        for form in ('scalar', 'list'):
-            if form == 'list' and cs['f'] != 'set':
+        for form in ('scalar', 'list', 'named', 'function'):
+            if form != 'scalar' and cs['f'] != 'set':
                 continue
             rep.evaluations += 1
             decl, uu = U[cs['decl']], U[cs['uunit']]
-            if form == 'scalar':
-                default, upd = cs['v'] * decl, cs['u'] * uu
-            else:
+            if form == 'list':
                 default, upd = [cs['v'] * decl, cs['v'] * decl], [cs['u'] * uu, (cs['u'] + 1) * uu]
-            st = make({'q': {'_default': default, '_updater': cs['f']}})
+            else:
+                default, upd = cs['v'] * decl, cs['u'] * uu
+            # named: the variable accumulates, the update names 'set' itself;
+            # function: the declared updater is a user function returning the update
+            declared = {'named': 'accumulate', 'function': (lambda v, u: u)}.get(form, cs['f'])
+            st = make({'q': {'_default': default, '_updater': declared}})
+            quantities = upd if form == 'list' else [upd]
+            handed = [(q.magnitude, str(q.units)) for q in quantities]
             try:
-                st.apply_update({'q': upd})
+                st.apply_update({'q': {'_value': upd, '_updater': 'set'} if form == 'named'
+                                 else upd})
             except Exception as e:
                 viol(rep, 'units', dict(c, form=form), 'raised %r' % (e,))
+                continue
+            now = [(q.magnitude, str(q.units)) for q in quantities]
+            if now != handed:
+                viol(rep, 'units', dict(c, form=form),
+                     'the update object was modified: the quantity handed in was %r and is now %r'
+                     % (handed, now))
                 continue
             got = st.get_value()['q']
             gots = got if form == 'list' else [got]
